@@ -37,6 +37,7 @@
  'ghost_calls': ['C08_IDX'],
  'assumptions': ['strncat: s1 and s2 are distinct objects (ISO: no overlap); s2 is an object of ss bytes that is NUL-terminated (last byte) or has ss >= n; the destination object has room for Ld + min(n, bound of strlen(s2)) + 1 bytes (writes beyond the new terminator are caught by the frame clause)'],
  'params': {'C08_FIXOFF': [0]}, 'params_thorough': {'C08_FIXOFF': [0, 3]},
+ 'mem_gb': 24, 'timeout': 900,
  'witness': {'unwind': 12},
 } @*/
 #include "c08_harness.h"
